@@ -2692,6 +2692,13 @@ class Interferometer(Decomposition):
             decomp_fn = getattr(dec, mesh)
             BS1, R, BS2 = decomp_fn(self.p[0], tol=tol)
 
+            if mesh == "triangular":
+                # dec.triangular returns tlist with U = Ti(tlist[-1]) ... Ti(tlist[0]) D: the local
+                # phases D act first, followed by the *inverse* beamsplitters Ti(tlist[0]), Ti(tlist[1]), ...
+                # Hand them to the BS2 branch below, which applies the inverse of each entry of
+                # reversed(BS2) after the local phases.
+                BS1, BS2 = [], list(reversed(BS1))
+
             for n, m, theta, phi, _ in BS1:
                 theta = theta if np.abs(theta) >= _decomposition_tol else 0
                 phi = phi if np.abs(phi) >= _decomposition_tol else 0
